@@ -262,37 +262,51 @@ def mon_expect(run, script, il, iab, ml):
                 if h.get('exp') != '0' or h.get('rcv') != '0':
                     run.violation('per-packet state not reset after FSK/OOK packet: exp=%s rcv=%s' % (h.get('exp'), h.get('rcv')), script)
         elif kind == 'fsktx_begin' and P in ('C04', 'C07'):
-            fsktx_frame = '' if args[0] == '-' else args[0]
-            run._fsktx = fsktx_frame
+            run._fsktx_from = i
         elif kind == 'fsktx_end' and P in ('C04', 'C07'):
             run.cov['monitor_checks'] += 1
-            frame = getattr(run, '_fsktx', '')
+            leave = args[0] == '1'
+            frames = ['' if a == '-' else a for a in args[1:]]
+            stream = ''.join(frames)
+            bounds = []
+            acc = 0
+            for fr in frames:
+                acc += len(fr)
+                bounds.append(acc)
             written = ''
-            tx_before_done = False
             ntx = 0
-            for l in ops:
-                if l.startswith('chip '):
-                    continue
+            early = None
+            window = [l for l in il[getattr(run, '_fsktx_from', 0):i] if is_op(l)]
+            for l in window:
                 f = fields(l)
+                # order inside one operation: the handler's own transfers and callbacks, then what
+                # the application did inside the callback; the trace lists SPI entries in order
+                # and a callback that queues a packet appears as a reaction, so count callbacks
+                # against the bytes written *before* this operation's reaction writes
+                pre = written
                 for e in spi_entries(f.get('spi')):
                     if e['kind'] == 'WB' and e['reg'] == 0 and e['fault'] is None:
                         written += e['data']
                 for c in cb_entries(f.get('cb')):
                     if c['kind'] == 'tx':
                         ntx += 1
-                        if written != frame:
-                            tx_before_done = True
-            if written != frame:
-                run.violation('FSK/OOK transmit wrote %d bytes to the FIFO, the frame has %d (or differs)' % (len(written) // 2, len(frame) // 2), script,
-                              {'frame': frame, 'written': written})
-            if tx_before_done:
-                run.violation('transmit callback before the whole frame was handed over', script)
+                        need = bounds[min(ntx, len(bounds)) - 1]
+                        have = len(pre) if c.get('reaction') and 'tx_set_for_transmission' in (c.get('reaction') or '') else len(written)
+                        if have < need and early is None:
+                            early = 'transmit callback #%d after only %d of %d frame bytes were handed over' % (ntx, have // 2, need // 2)
+            if written != stream:
+                run.violation('FSK/OOK transmit wrote %d bytes to the FIFO, the frame(s) have %d (or the bytes differ)' % (len(written) // 2, len(stream) // 2), script,
+                              {'frames': frames, 'written': written})
+            if early:
+                run.violation(early, script)
             if last and last.get('of') != '0':
                 run.violation('FIFO overflow during FSK/OOK transmit', script)
-            if args[0] == '1' and ntx != 1:
-                run.violation('transmit callback fired %d times for one packet' % ntx, script)
-            if args[0] == '0' and ntx < 1:
+            if leave and ntx != len(frames):
+                run.violation('transmit callback fired %d times for %d packet(s)' % (ntx, len(frames)), script)
+            if not leave and ntx < 1:
                 run.violation('no transmit callback for a completed packet', script)
+            if dumps:
+                pass
         elif kind == 'lorarx' and P in ('C05', 'C07', 'C11', 'C08'):
             run.cov['monitor_checks'] += 1
             crcerr, data = args[0] == '1', ('' if args[1] == '-' else args[1])
